@@ -112,6 +112,10 @@ func GetDocumentFactory(t MediaType) (func() Document, error) {
 }
 
 func UnmarshalDocument(d *json.RawMessage, t MediaType) (Document, error) {
+	if d == nil {
+		return nil, errors.New("document value is required")
+	}
+
 	factory, err := GetDocumentFactory(t)
 	if err != nil {
 		return nil, err
